@@ -533,16 +533,22 @@ func (e *Env) evalCall(n *ast.CallExpr) Term {
 		return app(SBool, v.S, e.eval(n.Args[0]))
 	case "call", "callb":
 		// call(f, args...): the value a pure closure returns
-		id, ok := n.Args[0].(*ast.Ident)
-		if !ok {
-			e.fail(n, "call(): first argument must be a function-typed binder")
+		var bv BVal
+		if id, ok := n.Args[0].(*ast.Ident); ok {
+			bv = e.vars[id.Name]
 		}
-		bv := e.vars[id.Name]
 		var args []Term
 		for _, a := range n.Args[1:] {
 			args = append(args, e.eval(a))
 		}
-		return e.st.ex.applyPureClosure(e, n, bv, args)
+		rs := SBool
+		if name == "call" {
+			if len(typeArgs) == 0 {
+				e.fail(n, "call[T](f, args...): the result type T is needed")
+			}
+			rs = e.u().sortOf(e.typeOf(typeArgs[0]))
+		}
+		return e.st.ex.applyPureClosure(e, n, bv, args, e.eval(n.Args[0]), rs)
 	case "ncalls":
 		if e.st.callsLost {
 			e.fail(n, "ncalls(): the call log is not exact after a loop")
